@@ -4,9 +4,9 @@
 #   output: /verif/seeded/<PROP>-<k>/{patch.diff,meta.json,demo file,result.json}
 set -u
 P=$1; K=$2; shift 2
-SRC=/tmp/seedout-$P/$K
-WT=/tmp/sv-$P-$K
-OUT=/verif/seeded/$P-$K
+SRC=${SEEDSRC:-/tmp/seedout-$P}/$K
+WT=/tmp/sv-$P-${SEEDTAG:-}$K
+OUT=/verif/seeded/$P-${SEEDTAG:-}$K
 export GOFLAGS=-mod=mod GOPROXY=off GOSUMDB=off GOTOOLCHAIN=local
 git -C /repo worktree remove --force $WT 2>/dev/null
 git -C /repo worktree add -q $WT HEAD || exit 2
@@ -53,7 +53,8 @@ for line in resl.split("\n"):
     if "=" in line:
         c, v = line.split("=", 1); rc, viol, first = v.split("|", 2)
         checks[c] = {"exit": int(rc), "violation_lines": int(viol), "first": first}
-r = {"property": P, "seed": "%s-%s" % (P, K), "breaks": meta.get("summary"), "needs": meta.get("needs"),
+import os
+r = {"property": P, "seed": os.path.basename(out), "breaks": meta.get("summary"), "needs": meta.get("needs"),
      "confirmed": {"patch_applies": applied == "1", "builds": b == "0", "existing_tests_pass": t == "0",
                    "demo_passes_unchanged": d0 == "0", "demo_fails_with_change": d1 not in ("0", "-1")},
      "ran": ["git apply patch.diff in a scratch worktree of /repo HEAD", "go build ./...", "unshare --ipc go test -p 1 -vet=off -count=1 ./...",
